@@ -1129,6 +1129,16 @@ def rule_match_sites(rep: Report, repo: Repo, rule: str) -> None:
                 if role == "file" and pr is not None and pr[:3] == ("suffix", ".cmake", True) and pr[3] == norm(loop.target):
                     continue        # only files that can be processed at all are tested: the same set
                 extra.append(norm(x))
+        # ... nor may the test itself sit behind another test of the loop body (the elif / else of an earlier branch, a guard
+        # clause): entries that take the earlier branch are never matched
+        if isinstance(iff, ast.If):
+            for g in guards_of(dm.fn, iff, dm.parents):
+                if not any(g.test is x for x in ast.walk(loop)):
+                    continue
+                pr = classify_predicate(g.test)
+                if role == "file" and pr is not None and pr[:3] == ("suffix", ".cmake", True) and g.polarity:
+                    continue
+                extra.append(("not " if not g.polarity else "") + norm(g.test))
         rep.check(not extra, rule, where, f"{role} match is the only condition of the removal",
                   f"entries are only tested against the exclude patterns when `{extra[0][:60] if extra else ''}` holds: the others bypass "
                   f"every pattern although they are processed", witness="Legacy.CMAKE with -e 'Legacy*'")
@@ -2112,11 +2122,18 @@ def rule_symlinked_subdirs(rep: Report, repo: Repo, rule: str) -> None:
             continue
         from ..model import guard_atoms
         gs = [g for g in guards_of(dm.fn, c, dm.parents) if any(g.test is x for x in ast.walk(dm.walk))]
+        # read the tests with loop-local names spelled out (`p = join(root, sub)` ... `islink(p)`)
+        loop_ = next((l for l in enclosing_loops(c, dm.parents, dm.fn) if l is not dm.walk), None)
+        from ..model import Guard
+        gs = [Guard(resolve_locals(g.test, loop_) if loop_ is not None else g.test, g.polarity, g.kind) for g in gs]
         atoms = guard_atoms(gs)
         link = {(t, pol) for t, pol in atoms if pol and t.startswith("os.path.islink(") and norm(c.args[0]) in t and dm.root_var in t}
         if not link:
             continue
-        ok_guard = all(flag is not None and t == flag and not pol for t, pol in atoms - link)
+        # besides the negated follow switch, "the entry is not excluded" may stand in front (an elif of the exclusion loop):
+        # excluded entries are removed anyway
+        ok_guard = all((flag is not None and t == flag and not pol) or
+                       (not pol and dm.spec_var is not None and t.startswith(f"{dm.spec_var}.match_file(")) for t, pol in atoms - link)
         before = first_use is None or order[id(c)] < first_use
         if ok_guard and before:
             pruned = True
@@ -2170,3 +2187,59 @@ def rule_page_order_by_name(rep: Report, repo: Repo, rule: str) -> None:
               "the pages of a directory are not produced in the sorted order of the file names: the sequence printed in stdout mode "
               "follows another key (a derived page name, a tuple) and differs for names where one is a prefix of the other",
               witness="utils.cmake next to utils-extra.cmake: expected utils-extra, utils")
+
+
+FS_PROBES = {"os.path.exists", "os.path.lexists", "os.path.isfile", "os.path.isdir", "os.path.islink", "os.scandir", "os.listdir",
+             "os.stat", "os.lstat", "os.path.getmtime", "os.path.getsize", "os.walk", "open", "os.readlink", "os.access"}
+
+
+def rule_fs_probes_absolute(rep: Report, repo: Repo, rule: str) -> None:
+    """Every path the processing code asks the file system about is rooted at the absolute input path or at the output
+    directory.  A relative path (the text of a symbolic link, a bare file name) is resolved against the working directory of
+    the run, so the answer - and with it what is documented - changes with the directory CMinx is started from."""
+    rep.rule(rule, "in document() / document_single_file() the argument of every file-system probe (exists, isfile, isdir, islink, "
+                   "scandir, listdir, stat, open, walk ...) carries the ABS or OUT label: no probe of a path that is relative to "
+                   "the working directory")
+    dm = DocumentModel(repo)
+    n = 0
+    for fn_name, flow in (("document", dm.flow_document()), ("document_single_file", dm.flow_single())):
+        for r in flow.calls:
+            if r.name not in FS_PROBES or not r.args:
+                continue
+            n += 1
+            labels = r.args[0]
+            rep.check(ABS in labels or OUT in labels, rule, f"{MOD}:{fn_name}", norm(r.node)[:70],
+                      f"`{norm(r.node.args[0])[:40]}` is not rooted at the absolute input path or the output directory (labels "
+                      f"{sorted(labels)}): the probe is answered relative to the working directory, so which files are documented "
+                      f"depends on where CMinx is started", witness="a relative symbolic link greet.cmake -> hello.cmake, run from two directories")
+    rep.floor(rule, 4, "file-system probes")
+
+
+def rule_file_list_filters(rep: Report, repo: Repo, rule: str) -> None:
+    """The files of a directory that are processed are its non-excluded files: the list os.walk yielded loses entries through the
+    exclusion match and through nothing else.  (The parent's auto-exclusion probe counts what `DirEntry.is_file()` says - which
+    follows links - so a second filter on the file list, e.g. dropping symlinked files, makes a directory that the parent lists
+    write no index.)"""
+    rep.rule(rule, "inside the walk, an entry is removed from the file list only under a positive match against the exclusion spec")
+    dm = DocumentModel(repo)
+    from ..model import guard_atoms
+    n = 0
+    for c in calls_in(dm.walk):
+        is_rm = isinstance(c.func, ast.Attribute) and c.func.attr in ("remove", "pop", "clear") and norm(c.func.value) == dm.files_var
+        if not is_rm:
+            continue
+        n += 1
+        gs = [g for g in guards_of(dm.fn, c, dm.parents) if any(g.test is x for x in ast.walk(dm.walk))]
+        loop_ = next((l for l in enclosing_loops(c, dm.parents, dm.fn) if l is not dm.walk), None)
+        atoms = guard_atoms([type(g)(resolve_locals(g.test, loop_) if loop_ is not None else g.test, g.polarity, g.kind) for g in gs])
+        matched = any(pol and dm.spec_var is not None and t.startswith(f"{dm.spec_var}.match_file(") for t, pol in atoms)
+        rep.check(matched, rule, f"{MOD}:document", norm(c)[:60] + " under " + (" & ".join(sorted(("" if p else "not ") + t[:40] for t, p in atoms)) or "no test"),
+                  "a file is dropped from the directory's file list for a reason other than matching an exclusion pattern: it is "
+                  "neither documented nor listed, and a directory whose remaining files are all dropped writes no index although its "
+                  "parent lists it", witness="-r on a tree where sub/ holds only symbolic links to .cmake files")
+    for n_ in walk_no_nested(dm.walk):
+        if isinstance(n_, ast.Assign) and any(norm(t) == f"{dm.files_var}[:]" for t in n_.targets):
+            n += 1
+            rep.check(dm.spec_var is not None and f"{dm.spec_var}.match_file(" in norm(n_.value), rule, f"{MOD}:document", norm(n_)[:70],
+                      "the file list is filtered in place by something other than the exclusion spec")
+    rep.ok(rule, f"{MOD}:document", f"{n} removal site(s) on the file list")
